@@ -199,6 +199,12 @@ theorem reroot_any (h : Pulley π P) (props : Fin K → R) (data : String → Fi
     (∀ T' ∈ allRootings T, likN π props P data T' = likN π props P data T) :=
   ⟨fun ms => likN_reroot h props data ms T, fun T' hm => likN_allRootings h props data T T' hm⟩
 
+/-- `allRootings` lists `2n − 3` rooted trees — one per branch of the unrooted tree with `n` leaves (that they sit
+    on pairwise different branches is checked by the correspondence run, exactly, on every generated tree) -/
+theorem allRootings_count {L : Type} [Add L] [Zero L] (l r : LTree L) (b : L) :
+    (allRootings (.node l r b)).length = 2 * (LTree.node l r b).names.length - 3 :=
+  allRootings_length l r b
+
 /-- the hypotheses are satisfiable non-trivially: the two-state symmetric chain on `ℚ`-valued lengths
     `P(t) = ½(1+2^{-t}) / ½(1−2^{-t})` is too transcendental for a one-line example; the degenerate
     but non-vacuous instance `P ≡ I` (any `π`) satisfies all three clauses -/
